@@ -1,8 +1,101 @@
-/- Driver ops for C09 (none yet). -/
+/- Driver ops for C09: the tree cache (stack machine) and the soft-routing mixture on `Float`. -/
 import Xrfmv.Drv.Common
+import Xrfmv.Model.Soft
+
+open Lean Xrfmv.Drv
 
 namespace Xrfmv.Drv.C09
+open Xrfmv.Soft
 
-def ops : List (String × Handler) := []
+/-- `{"leaf": id}` | `{"dir": [bits], "thr": bits, "scale": bits, "left": tree, "right": tree}` -/
+partial def parseTree (j : Json) : Except String (Tree Float Nat) := do
+  match j.getObjVal? "leaf" with
+  | .ok v =>
+      let m ← (fromJson? v : Except String Nat)
+      pure (.leaf m)
+  | .error _ =>
+      let dir ← getFs j "dir"
+      let thr ← getF j "thr"
+      let scale ← getF j "scale"
+      let l ← parseTree (← j.getObjVal? "left")
+      let r ← parseTree (← j.getObjVal? "right")
+      pure (.node { dir := dir.toList, thr := thr, scale := scale } l r)
+
+def pathJson (p : Path) : Json := toJson (p.map fun e => Json.arr #[toJson e.1, toJson e.2])
+
+def gateJson (g : Gate Float) : Json :=
+  Json.mkObj [("dir", fsJson g.dir.toArray), ("thr", fJson g.thr), ("scale", fJson g.scale)]
+
+def cacheJson (c : Cache Float Nat) : List (String × Json) :=
+  [("leaf_order", toJson (c.leaves.map fun e => e.1)),
+   ("leaf_models", toJson (c.leaves.map fun e => e.2.1)),
+   ("leaf_paths", toJson (c.leaves.map fun e => pathJson e.2.2)),
+   ("node_ids", toJson (c.gates.map fun e => e.1)),
+   ("gates", toJson (c.gates.map fun e => gateJson e.2))]
+
+/-- (a) the cache of a tree: leaf order, models, paths, node ids, gates. -/
+def opCache : Handler := fun j => do
+  let t ← parseTree (← j.getObjVal? "tree")
+  let c := buildCache t
+  pure <| Json.mkObj (cacheJson c ++
+    [("n_leaves", toJson t.nleaves), ("n_nodes", toJson t.nodes), ("depth", toJson t.depth),
+     ("spec_models", toJson ((pathsSpec t).map fun e => e.1)),
+     ("spec_flags", toJson ((pathsSpec t).map fun e => e.2.map fun ge => ge.2))])
+
+def allDirs : Tree Float Nat → List (List Float)
+  | .leaf _ => []
+  | .node g l r => g.dir :: (allDirs l ++ allDirs r)
+
+/-- (b) weights, active set and mixture of given rows; `preds[m][row][coord]` = prediction of leaf model `m`. -/
+def opSoft : Handler := fun j => do
+  let t ← parseTree (← j.getObjVal? "tree")
+  let rows ← getFss j "rows"
+  let T ← getF j "T"
+  let keep ← getF j "keep"
+  let cap ← j.getObjValAs? Nat "cap"
+  let predsBits ← j.getObjValAs? (Array (Array (Array Nat))) "preds"
+  let preds := predsBits.map fun a => a.map fun r => r.map bitsToFloat
+  if T.isNaN || Gen.Soft.rejectT T then throw "bad-op: split_temperature must be positive"
+  if cap < 1 then throw "bad-op: max_leaf_count_in_ensemble must be at least 1"
+  if keep.isNaN || keep < 0.0 || keep > 1.0 then throw "bad-op: keep_weight_frac_in_predict must lie in [0, 1]"
+  let d := match rows[0]? with | some r => r.size | none => 0
+  if rows.any (fun r => r.size != d) then throw "bad-op: ragged rows"
+  if rows.size > 0 && (allDirs t).any (fun v => v.length != d) then throw "bad-op: direction/row dimension mismatch"
+  let c := buildCache t
+  let n := c.leaves.length
+  if c.leaves.any (fun e => e.2.1 ≥ preds.size) then throw "bad-op: no predictions for a leaf model"
+  let k := match preds[0]? with
+    | some p => (match p[0]? with | some r => r.size | none => 0)
+    | none => 0
+  if preds.any (fun p => p.size != rows.size || p.any (fun r => r.size != k)) then
+    throw "bad-op: Leaf predictions have inconsistent output dimensions"
+  let mut out : Array Json := #[]
+  for i in [0:rows.size] do
+    let x := rows[i]!.toList
+    let lps := rowLogPs T c x
+    let clamped := lps.map Gen.Soft.clampLog
+    let w := leafWeights lps
+    let perm := sortPerm w
+    let sortedW := perm.map (fun l => w.getD l 0)
+    let cum := cumsumFrom 0 sortedW
+    let kc := keepCount keep cap n sortedW
+    let fw := finalWeights keep cap w perm
+    let coords := (List.range k).map fun q =>
+      let f := c.leaves.map fun e => ((preds[e.2.1]!)[i]!)[q]!
+      mixture keep cap lps perm f
+    out := out.push <| Json.mkObj
+      [("logp", fsJson lps.toArray), ("clamped", fsJson clamped.toArray), ("weights", fsJson w.toArray),
+       ("perm", toJson perm), ("cum", fsJson cum.toArray), ("keep_count", toJson kc),
+       ("kept", toJson (keptIdx perm kc)), ("active", toJson fw.1), ("final", fsJson fw.2.toArray),
+       ("out", fsJson coords.toArray), ("hard_index", toJson (hardIndex x t)), ("hard_model", toJson (hardRoute x t))]
+  pure <| Json.mkObj (cacheJson c ++ [("rows", Json.arr out)])
+
+/-- hard/soft dispatch of `_predict_tree`. -/
+def opDispatch : Handler := fun j => do
+  let isNone ← j.getObjValAs? Bool "none"
+  let T ← if isNone then pure 0.0 else getF j "T"
+  pure <| Json.mkObj [("hard", toJson (Gen.Soft.routeHard isNone (T == 0.0)))]
+
+def ops : List (String × Handler) := [("cache", opCache), ("soft", opSoft), ("dispatch", opDispatch)]
 
 end Xrfmv.Drv.C09
